@@ -172,8 +172,8 @@ impl Prop for C08 {
 
     fn profiles(tier: Tier) -> Vec<Profile> {
         match tier {
-            Tier::Quick => vec![prof("counters", 160_000), prof("same_machines", 80_000)],
-            Tier::Thorough => vec![prof("counters", 1_500_000), prof("same_machines", 700_000)],
+            Tier::Quick => vec![prof("counters", 160_000), prof("same_machines", 80_000), prof("many_same", 2_000)],
+            Tier::Thorough => vec![prof("counters", 1_500_000), prof("same_machines", 700_000), prof("many_same", 25_000)],
         }
     }
 
@@ -217,6 +217,23 @@ impl Prop for C08 {
                     })
                     .boxed()
             }
+            "many_same" => {
+                // the same, with more copies than a machine word has bits
+                let mut mp = mp.clone();
+                mp.prob_style = 1;
+                mp.max_states = 3;
+                let hp = HistParams { min_calls: 2, max_calls: 8, max_batch: 4, ..hp };
+                fw_case(1..=1, &mp, &hp, false, 0)
+                    .prop_flat_map(|c| (Just(c), 65usize..=140))
+                    .prop_map(|(mut c, k)| {
+                        let m = c.machines[0].clone();
+                        for _ in 1..k {
+                            c.machines.push(m.clone());
+                        }
+                        c
+                    })
+                    .boxed()
+            }
             _ => panic!("unknown profile"),
         }
     }
@@ -225,6 +242,9 @@ impl Prop for C08 {
         let machines = build_machines(&case.machines)
             .unwrap_or_else(|e| panic!("generator produced a machine that Machine::new rejects: {e}"));
         let n = machines.len();
+        if n > 64 {
+            obs.hit("more_than_64_machines");
+        }
         if case.machines.iter().any(|m| {
             m.states.iter().any(|st| {
                 [&st.counter_a, &st.counter_b]
@@ -299,6 +319,7 @@ impl Prop for C08 {
     fn required_classes() -> Vec<&'static str> {
         vec![
             "counter_zero_delivered",
+            "more_than_64_machines",
             "constant_update_with_start_or_max",
             "saturated",
             "copy",
